@@ -106,8 +106,8 @@ theorem xgood_kidsEd (fcs tcs : List XTree) (pen : Nat) (tbl : List (List XScrip
       · exact xgood_xRemove _ _ _
     · exact xgood_relabel _ _ (xgood_xMatch 0)
 
-theorem xgood_kidsScript (fcs tcs : List XTree) (tbl : List (List XScript)) (h : XGoodTbl tbl) :
-    XGood (kidsScript fcs tcs tbl) := by
+theorem xgood_kidsScript (o : Opts) (fcs tcs : List XTree) (tbl : List (List XScript)) (h : XGoodTbl tbl) :
+    XGood (kidsScript o fcs tcs tbl) := by
   unfold kidsScript
   split
   · exact xgood_xMatch 0
